@@ -40,7 +40,9 @@ int array_init_copy(array_t *array, const array_t *src)
 	if (ret != 0)
 		return ret;
 
-	memcpy(array->data, src->data, src->used * src->size);
+	if (src->used > 0)
+		memcpy(array->data, src->data, src->used * src->size);
+
 	array->used = src->used;
 	return 0;
 }
